@@ -78,6 +78,43 @@ CLAIMED = {
    note="Histories exhaustive for 2 entries x 3 calls; programs sampled (96 quick / 600 thorough). Property insns are excluded as in the property.",
    technique="TLA+ interface/first-call state machine (TLC, all histories) x TLA+ abstract machine as oracle; replay through every interface",
    design="DESIGN.md §4 C03, §3.5"),
+ "C13": dict(level="model_checking",
+   text="MIRLink.tla is an implementation-shaped machine (environment table, to-link queue, bindings of linked modules, redefinition "
+        "permission) with an independent definition history in which BindLatest, RedefRejected, UndefinedReported, LocalBinding and "
+        "OldBindingsStable are stated; TLC checks them in every reachable state of all load / load_external / set_permission / link(resolver) "
+        "histories within the bounds (3 names, 11 module shapes incl. ill-formed and dangling declarations, <=4 modules, depth 6 quick / 7 "
+        "thorough, plus simulated depth-16 histories) and emits every transition with a shortest behaviour. Each behaviour is replayed through "
+        "the MIR API on a fresh context: error verdict/code at every step, resolver call sequence, and after every link the address and the "
+        "MIR_CALL/MIR_INLINE result of every import/forward of every module linked so far, plus a first execution delayed to the end.",
+   note="Exhaustive within the bounds of spec/MIRLink_*.cfg. Behaviour on which MIR.md is silent is modelled as named deviations "
+        "(DevRedefAnyEntry, DevResolverRegisters, DevDupDeclMerged, DevDanglingAccepted) and not alarmed on. Trusted: TLC, harness/c13_link.c.",
+   technique="TLA+ state machine with history variables; TLC BFS with hidden history (VIEW) + simulation; every transition replayed into "
+             "MIR_load_module/MIR_load_external/MIR_link (direction A)",
+   design="DESIGN.md §4 C13, §3.4"),
+ "C14": dict(level="model_checking",
+   text="MIRData.tla defines Layout (sections: head, members, size; per item section/offset/length) and Contents (declared bytes, zeros, "
+        "Addr(target)+disp, expression value, A(l1)[-A(l2)]+disp) and TLC enumerates every item sequence of the plan (all element types x "
+        "lengths, bss, ref to earlier/later/import/other-module/function items, one- and two-label lref, expr, proto as section breaker, "
+        "named/anonymous; length <=2 over the full alphabet and <=3 over a reduced one in quick, up to 5 in thorough). Each sequence is built "
+        "through the API, loaded with a recording user MIR_alloc_t and linked under ASan/UBSan; compared: head is a block of >= section size, "
+        "addr(i)-addr(head)=offset, section_head_p, every byte of data/bss/expr, ref values relationally, lref relations after preparing the "
+        "function under the interpreter and the generator interfaces.",
+   note="Exhaustive over the stated alphabets and lengths; addresses only compared relationally. Trusted: TLC, clang sanitizers, harness/c14_data.c.",
+   technique="TLA+ layout/contents functions enumerated by TLC; each sequence replayed through MIR_new_*data / MIR_load_module / MIR_link with a checking allocator",
+   design="DESIGN.md §4 C14, §3.4"),
+ "C17": dict(level="model_checking",
+   text="MIRAlloc.tla (ledger of live blocks with true sizes, mapped code regions with per-page write windows, Finish only with empty ledgers) "
+        "is model-checked with TLC, and every allocator-call trace recorded from the real library is validated against it by TraceMIRAlloc.tla "
+        "(quick ~100 API histories / 230k events; thorough ~1300 histories / 7-10M events). Traces come from checking MIR_alloc_t / "
+        "MIR_code_alloc_t allocators (fresh ids, true sizes, always-moving realloc, quarantine and poison, write-protected code pages with a "
+        "fault handler) and libc allocation calls of the library objects redirected by symbol renaming. A trace is accepted only if it is a "
+        "behaviour of the spec: realloc reports the true old size, free only hits live blocks, no raw, foreign or double release, code written "
+        "only inside a protect-W window, everything returned at Finish.",
+   note="Bounded by the enumerated error-free histories (API-built modules, mir-tests, embedded C inputs, c-tests/new; single-threaded, x86-64). "
+        "Reads of released memory are detected only in the asan variant. Long executions are validated as per-block-range projections sharing "
+        "Start/Finish/Reset.",
+   technique="TLA+/TLC trace validation (direction B) plus TLC model checking of the allocator contract; checking allocators; objcopy symbol renaming",
+   design="DESIGN.md §4 C17, §3.6"),
 }
 NOT_YET = "not claimed yet: the specification/binding for this property is still under construction in this round (DESIGN.md §7 order)"
 
